@@ -26,7 +26,18 @@ Section DynQueueP.
 
   Lemma gen_entry_is_mod_entry sync d i d0 d1 :
     gen_entry sync d i d0 d1 = mod_entry sync d d0 d1 (sin (modtimedelta d * fz i)).
-  Proof. unfold gen_entry, dq_entry, mod_entry. f_equal; ring. Qed.
+  Proof.
+    unfold gen_entry, dq_entry, mod_entry.
+    (* the argument of the sine may be written in any equal form (i * delta, delta * i, ...) *)
+    repeat match goal with
+    | |- context [sin ?a] =>
+        lazymatch a with
+        | (modtimedelta d * fz i) => fail
+        | _ => replace a with (modtimedelta d * fz i) by ring
+        end
+    end.
+    f_equal; ring.
+  Qed.
 
   (** the loop with header (0; < steps; += 1), from any iteration on *)
   Lemma for_loop_seq (noise : nat -> K) (entry : Z -> K -> K -> modn K) :
